@@ -18,6 +18,7 @@ PLAN = {
     'C11': dict(level='proof', engines=['chordnative']),
     'C13': dict(level='proof', engines=['intervalsnative']),
     'C14': dict(level='proof', engines=[]),
+    'C19': dict(level='proof', engines=['sepstruct', 'bundles']),
     'C15': dict(level='proof', engines=['frames'], assumptions=['A3', 'A4', 'A5', 'A6', 'A7']),
 }
 
